@@ -115,6 +115,17 @@ def embed_case(ctx, case, cg, aa):
                 if abs(float(x) - float(y)) > 1e-9 * max(1.0, abs(float(x))):
                     ctx.disagree('beads', slim, f'bead {k}: implementation {list(beads[k])}, exact weighted mean {[float(v) for v in exact]}')
                     break
+    # oracle: every bead sits at the weight-normalised average of its own atoms
+    for k, pos_k in beads.items():
+        gk = cg.nodes[k]['graph']
+        ws = {n: gk.nodes[n].get('weight', 1) for n in gk.nodes}
+        tot = sum(ws.values())
+        if tot > 0:
+            exp = sum(aa.nodes[n]['position'] * w for n, w in ws.items()) / tot
+            if np.linalg.norm(exp - pos_k) > 1e-9 * max(1.0, float(np.linalg.norm(exp))):
+                ctx.fail(slim, f'bead {k} is at {[round(float(x), 4) for x in pos_k]}, the weight-normalised average of its atoms is '
+                               f'{[round(float(x), 4) for x in exp]} (weights {ws})')
+                break
     # translation
     t = np.array([10.0, -3.0, 2.5])
     for n in aa.nodes:
@@ -218,9 +229,15 @@ def run(ctx):
             case = dict(case, node_order=order)
             aa = reorder(aa, order)
             ctx.feature('shuffled-node-order')
+        zeroed = set()
         for nn in aa.nodes:
             if rng.random() < 0.3:
-                w = rng.choice([0.5, 2.0, 0.25, 3.0])
+                w = rng.choice([0.5, 2.0, 0.25, 3.0, 0.0])
+                if w == 0.0:
+                    # a legal ';0' annotation; at most one atom per bead so that the total weight stays positive
+                    if any(k in zeroed for k in aa.nodes[nn]['fragid']) or any(len(cg.nodes[k]['graph']) < 2 for k in aa.nodes[nn]['fragid']):
+                        continue
+                    zeroed.update(aa.nodes[nn]['fragid'])
                 aa.nodes[nn]['weight'] = w
                 for k in aa.nodes[nn]['fragid']:
                     if nn in cg.nodes[k]['graph']:
